@@ -19,6 +19,7 @@ func init() {
 	ops["dec2x"] = opDec2x
 	ops["enc"] = opEnc
 	ops["enc2"] = opEnc2
+	ops["decsh"] = opDecSh
 	ops["rt4"] = opRt4
 	ops["canon"] = opCanon
 	ops["encnone"] = func([]string) string {
@@ -618,4 +619,21 @@ func opEnc2(args []string) string {
 		return "err " + errClass(err)
 	}
 	return "ok " + hexs(out)
+}
+
+// decsh <security header type> <hex>: PlainNasDecode into a Message whose SecurityHeader the caller has already filled in (what
+// an AMF does after stripping the outer security header of a protected message): the call returns
+func opDecSh(args []string) string {
+	if len(args) != 2 {
+		return "bad-op"
+	}
+	sht, err := strconv.ParseUint(args[0], 10, 8)
+	b, ok := unhex(args[1])
+	if err != nil || !ok {
+		return "bad-op"
+	}
+	m := nas.NewMessage()
+	m.SecurityHeader = nas.SecurityHeader{ProtocolDiscriminator: 0x7e, SecurityHeaderType: uint8(sht), MessageAuthenticationCode: 0xdeadbeef, SequenceNumber: 7}
+	_ = m.PlainNasDecode(&b)
+	return "done"
 }
